@@ -587,7 +587,7 @@ def observe(hcli, pdir, cfg, message, fill_mode, backend, tag):
         fills = list(fill_mode)
     tty = fill_mode in ("pty", "all_pty")
     before = snapshot(gd)
-    args = ["revision", "-m", message]
+    args = ["revision", "--message=" + message]
     for f in fills:
         args += ["--fill-with", f]
     if tty:
@@ -618,7 +618,8 @@ def observe(hcli, pdir, cfg, message, fill_mode, backend, tag):
         r0 = [x for x in r if x["kind"] == "migration"][0]
         if r0.get("ok"):
             grev = "(OR_wrote %s %s %s %s)" % (gs(name), r0["g"], glist(gs(x) for x in changed), glist(gs(x) for x in added))
-            wrote = {"file": name, "version": r0["version"], "n_actions": r0["n_actions"], "text": after[name].decode(errors="replace")}
+            wrote = {"file": name, "version": r0["version"], "n_actions": r0["n_actions"], "text": after[name].decode(errors="replace"),
+                     "comment": r0.get("comment"), "comment_ok": r0.get("comment") == message}
             o["rev"] = "wrote"
         else:
             o["rev"] = "wrote-unparsable"
@@ -707,6 +708,10 @@ def oracle_c13(row, post):
             fails.append(("revision_append_only", None, "new version %d, previous maximum %d" % (v, mx)))
         if mx == 4294967295:
             fails.append(("revision_append_only", None, "version counter saturated: new migration reuses version %d" % v))
+    if o["rev"] == "wrote-unparsable":
+        fails.append(("revision_output_loadable", None, "revision wrote a file the loader's parser rejects"))
+    if o["rev"] == "wrote" and not o["wrote"].get("comment_ok", True):
+        fails.append(("revision_output_loadable", None, "the comment read back from %s is %r, the message was %r" % (o["wrote"]["file"], o["wrote"].get("comment"), row["message"])))
     # the history the tool wrote must stay readable by the tool
     if o["rev"] == "wrote" and post is not None:
         po = post["obs"]
@@ -725,6 +730,13 @@ def oracle_c13(row, post):
 PATTERNS = ["%04v_%m", "%04v_%m", "%04v_%m", "%04v_%m", "%v", "%06v-%m", "v%v_%m", "%m_%03v", "%m",
             "%%v_%m", "%05v%", "%0x_%v-%m.", "%012v.%m.", "__%m__%0v", "%00v_%m_%"]
 MESSAGES = ["init", "Add Users!", "x  y", "second", "tweak é", "UPPER case-2", "a/b.c", "more", "again", "again"]
+# messages that are awkward for a YAML / JSON writer, for the comment field and for the file name (%m): the message must be
+# read back exactly from the written file's `comment`, whatever the migration format
+AWKWARD_MESSAGES = [
+    "create orders\n\nsplit out of the legacy table", "line one\r\nline two", "# looks like a comment", "---", "--- # doc start",
+    "key: value", "- item", "- a\n- b", "say \"hi\" and 'bye'", "tab\there", "ends with backslash \\", "naïve café ñ 中文 🎉",
+    "", "   ", "{not: json}", "[1, 2]", "null", "true", "0012", "%m %v %04v", "x" * 200, "é" * 90]
+LONG_MESSAGE = "long message " + "y" * 300        # > NAME_MAX if it went into the file name: only used with a pattern without %m
 
 
 def draw_config(rng, i):
@@ -764,7 +776,7 @@ def run_evolution(hcli, base, idx, evo, seed):
     for si, tables in enumerate(evo["steps"]):
         write_models(pdir, cfg, layout_models(rng, tables, cfg["modelFormat"]))
         mode = rng.choice(["all", "all", "all", "all", "none", "pty", "all_pty"])
-        msg = rng.choice(MESSAGES)
+        msg = rng.choice(MESSAGES + AWKWARD_MESSAGES) if rng.random() < 0.5 else rng.choice(MESSAGES)
         a = observe(hcli, pdir, cfg, msg, mode, backend, "gen:%d:%d:a" % (idx, si))
         rows.append(a)
         if "skip" in a:
@@ -943,6 +955,55 @@ def overwrite_streams():
     return out
 
 
+def message_streams():
+    """every awkward message under each of the three migration formats (model format rotating), two revisions per project;
+    the 300-character message with a pattern that keeps it out of the file name"""
+    ID = {"name": "id", "type": "integer", "nullable": False, "primary_key": True}
+
+    def tbl(*cols):
+        return {"acct.json": {"name": "acct", "columns": [ID] + [{"name": c, "type": "text", "nullable": True} for c in cols]}}
+    fmts = ["json", "yaml", "yml"]
+    out = []
+    k = 0
+    msgs = AWKWARD_MESSAGES
+    for gi, gf in enumerate(fmts):
+        for i, m in enumerate(msgs):
+            k += 1
+            m2 = msgs[(i + 7) % len(msgs)]
+            out.append(("msg-%s-%02d" % (gf, i), {"migrationFormat": gf, "modelFormat": fmts[(k + gi) % 3]},
+                        [(tbl(), m, "plain"), (tbl("a"), m2, "plain two")], None))
+        out.append(("msg-%s-long" % gf, {"migrationFormat": gf, "modelFormat": fmts[gi], "migrationFilenamePattern": "%05v"},
+                    [(tbl(), LONG_MESSAGE, "plain"), (tbl("a"), LONG_MESSAGE + "\nsecond line", "plain two")], None))
+    return out
+
+
+def comment_streams():
+    """edits of the comment of already-migrated columns: new comments of 28-60 characters in Latin with accents, Cyrillic,
+    CJK, emoji and mixtures, shifted by 20..30 ASCII characters so that every byte offset 24..30 falls inside a multi-byte
+    character somewhere in the pool (the places that shorten a comment for display must cut at a char boundary); then the
+    comment is removed again"""
+    ID = {"name": "id", "type": "integer", "nullable": False, "primary_key": True}
+    scripts = {"lat": "é", "cyr": "я", "cjk": "中", "emo": "🎉"}
+
+    def tbl(comments):
+        cols = [ID]
+        for name, c in comments.items():
+            d = {"name": name, "type": "text", "nullable": True}
+            if c is not None:
+                d["comment"] = c
+            cols.append(d)
+        return {"acct.json": {"name": "acct", "columns": cols}}
+    out = []
+    for k in range(20, 31):
+        new = {n: "a" * k + ch * (40 - k if n != "emo" else 12) for n, ch in scripts.items()}
+        new["mix"] = ("a" * (k - 3) + "é中🎉я") * 2
+        old = {n: "old" for n in new}
+        gone = {n: None for n in new}
+        out.append(("comment-%d" % k, {"migrationFormat": ["json", "yaml", "yml"][k % 3]},
+                    [(tbl(old), "init", "plain"), (tbl(new), "comments", "plain two"), (tbl(gone), "no comments", "plain three")], None))
+    return out
+
+
 def run_overwrite_stream(hcli, base, idx, spec, seed):
     name, over, steps, initial = spec
     cfg = {"modelsDir": "models", "migrationsDir": "migrations", "tableNamingCase": "snake", "columnNamingCase": "snake"}
@@ -971,7 +1032,7 @@ def run_overwrite_stream(hcli, base, idx, spec, seed):
 
 
 def run_overwrite_streams(hcli, base, seed):
-    specs = overwrite_streams()
+    specs = overwrite_streams() + message_streams() + comment_streams()
     rows = []
     with ThreadPoolExecutor(max_workers=12) as ex:
         for r in ex.map(lambda ie: run_overwrite_stream(hcli, base, ie[0], ie[1], seed), list(enumerate(specs))):
@@ -989,7 +1050,7 @@ def c12_part(tier, seed):
     base = os.path.join(WORK, "c12part_%s_%s" % (tier, seed))
     shutil.rmtree(base, ignore_errors=True)
     os.makedirs(base)
-    rows = [r for r in run_fill_streams(hcli, base, seed) if "skip" not in r]
+    rows = [r for r in run_fill_streams(hcli, base, seed) + run_overwrite_streams(hcli, base, seed) if "skip" not in r]
     bad = []
     wrote = 0
     for i, r in enumerate(rows):
@@ -999,6 +1060,8 @@ def c12_part(tier, seed):
         if o["rev"] != "wrote":
             continue
         wrote += 1
+        if not o["wrote"].get("comment_ok", True):
+            bad.append((r, "the comment read back from %s is %r, the message was %r" % (o["wrote"]["file"], o["wrote"].get("comment"), r["message"])))
         post = rows[i + 1] if i + 1 < len(rows) and rows[i + 1]["tag"].rsplit(":", 1)[0] == r["tag"].rsplit(":", 1)[0] else None
         if post is None:
             continue
@@ -1013,7 +1076,7 @@ def c12_part(tier, seed):
             bad.append((r, "after `revision` wrote %s, `diff` still lists %d change(s)" % (o["wrote"]["file"], len(po["diff"][1]))))
     import collections
     fm = collections.Counter("%s/%s" % (r["config"].get("migrationFormat"), r["config"].get("modelFormat")) for r in rows if r["obs"]["rev"] == "wrote")
-    details = {"streams": len(fill_streams()) + len(fkname_streams()), "observations": len(rows), "revisions_written": wrote,
+    details = {"streams": len(fill_streams()) + len(fkname_streams()) + len(overwrite_streams()) + len(message_streams()) + len(comment_streams()), "observations": len(rows), "revisions_written": wrote,
                "written_by_migration_format/model_format": dict(fm), "failures": [(r["tag"], t) for r, t in bad][:10]}
     fi = None
     if bad:
@@ -1092,7 +1155,7 @@ def compare_with_literal(hcli, pdir, tag):
 def revise_with_fills(hcli, pdir, cfg, message):
     md, gd = os.path.join(pdir, cfg["modelsDir"]), os.path.join(pdir, cfg["migrationsDir"])
     rows = hcli_parse(hcli, walk_models(md), list_migrations(gd))
-    args = ["revision", "-m", message]
+    args = ["revision", "--message=" + message]
     for r in rows:
         if r["kind"] == "missing":
             for it in r["items"]:
@@ -1494,6 +1557,23 @@ def tree_layout(rng, tables, step):
     return files
 
 
+SIBLING_DIRS = [("order items", "order_items"), ("a.b", "a_b"), ("x-y", "x_y"), ("p/order items", "p/order_items"),
+                ("p q/r.s", "p_q/r_s"), ("my dir", "my_dir")]
+
+
+def sibling_layout(rng, tables):
+    """two different tables as same-stem files in sibling directories whose names differ only in characters that
+    sanitize_filename maps to '_' (one output path: refused) or not at all ('x-y' / 'x_y': two paths, exported)"""
+    a, b = rng.choice(SIBLING_DIRS)
+    stem = rng.choice(["line", "item v2", "entry"])
+    files = {}
+    for t, d in zip(tables[:2], (a, b)):
+        files["%s/%s.json" % (d, stem)] = json.dumps(t["json"], indent=1)
+    for t in tables[2:]:
+        files["%s.json" % t["name"]] = json.dumps(t["json"], indent=1)
+    return files
+
+
 def run_tree_evolution(hcli, base, idx, evo, seed):
     rng = random.Random(seed * 7919 + idx)
     cfg = {"modelsDir": "models", "migrationsDir": "migrations", "tableNamingCase": "snake", "columnNamingCase": "snake"}
@@ -1507,7 +1587,8 @@ def run_tree_evolution(hcli, base, idx, evo, seed):
     rows = []
     for si, tables in enumerate(evo["steps"]):
         keep = [t for t in tables if rng.random() < 0.85] or tables[:1]
-        write_models(pdir, cfg, tree_layout(rng, keep, si))
+        sib = len(keep) >= 2 and rng.random() < 0.2
+        write_models(pdir, cfg, sibling_layout(rng, keep) if sib else tree_layout(rng, keep, si))
         plant = {}
         if rng.random() < 0.6:
             plant["notes.txt"] = "kept %d" % si
